@@ -213,10 +213,13 @@ def _traced_read_request(self):
 
 DispatchingRequestHandler._read_request = _traced_read_request
 ENTERED = []
+ON_ENTER = []      # callbacks run when do_POST / do_GET is entered (state snapshot per request on a kept-alive connection)
 for _m in ('do_POST', 'do_GET'):
     def _wrap(real, name):
         def method(self):
             ENTERED.append(name)
+            for cb in ON_ENTER:
+                cb(name)
             return real(self)
         return method
     setattr(DispatchingRequestHandler, _m, _wrap(getattr(DispatchingRequestHandler, _m), _m))
@@ -260,6 +263,44 @@ def parse_response(raw, method='POST'):
         return r.status, {k.lower(): v for k, v in r.getheaders()}, body
     except Exception:  # noqa: BLE001
         return None
+
+
+class SharedSock:
+    def __init__(self, data):
+        self.fp = io.BufferedReader(io.BytesIO(data), buffer_size=max(8192, len(data) + 16))   # peek() must see the whole rest
+
+    def makefile(self, mode, *a, **k):
+        outer = self
+
+        class NoClose:
+            def __getattr__(self, n):
+                return getattr(outer.fp, n)
+
+            def close(self):
+                pass
+
+            def flush(self):
+                pass
+        return NoClose()
+
+
+def parse_responses(raw, limit=40):
+    """every response written on one connection, in order: [(status, headers, body)], number of bytes that are no response"""
+    sock = SharedSock(raw)
+    res = []
+    while len(res) < limit and sock.fp.peek(1):
+        if not sock.fp.peek(5).startswith(b'HTTP/'):
+            break
+        r = http.client.HTTPResponse(sock, method='POST')
+        try:
+            r.begin()
+            if r.status == 100:
+                continue
+            res.append((r.status, {k.lower(): v for k, v in r.getheaders()}, r.read()))
+        except Exception:  # noqa: BLE001
+            res.append((None, {}, b''))
+            break
+    return res, len(sock.fp.read())
 
 
 class Comp:
@@ -444,6 +485,15 @@ def build_world(cfg):  # noqa: PLR0915, C901
                 raise
             if first:
                 f['parse'] = [0, 0]
+            if f is not None and W.current_marker:
+                hits = scan_marker(getattr(r.p_msg, '_doc_root', None), W.current_marker)
+                hib = getattr(r.p_msg, 'header_info_block', None)
+                for name in ('MessageID', 'Action', 'To', 'RelatesTo'):
+                    v = getattr(hib, name, None)
+                    if isinstance(v, str) and W.current_marker in v:
+                        hits.append(f'header_info_block.{name}')
+                if hits:
+                    f.setdefault('entity_handed', []).extend(hits[:4])
             return r
 
         def __getattr__(self, n):
@@ -490,6 +540,7 @@ def build_world(cfg):  # noqa: PLR0915, C901
 
     W.last_frames = []
     W.notifications = []
+    W.current_marker = None
 
     # ------------------------------------------------------------ delivery of one request as raw bytes
     def build_raw(method, path, headers, body, framing):
@@ -587,6 +638,11 @@ def build_world(cfg):  # noqa: PLR0915, C901
               'method': method, 'path': path[:120], 'req_len': len(raw), 'escaped': escaped, 'spin': spin,
               'reads': reads, 'read_budget': 3 * len(raw) + 64, 'read_ok': read_log, 'frame': own, 'nested': W.depth > 0,
               'resolved': W.resolved[res_mark:], 'canary_in_response': cfg['canary_content'].encode() in resp}
+        if W.current_marker:
+            tr['entity_marker'] = W.current_marker
+            tr['entity_in_response'] = W.current_marker.encode() in resp
+            if W.depth > 0:
+                tr['entity_in_notification'] = W.current_marker.encode() in raw
         if p is None:
             tr.update(status=None, body_class='no-response', wellformed=False, resp_head=resp[:80].decode('latin-1'))
         else:
@@ -597,8 +653,11 @@ def build_world(cfg):  # noqa: PLR0915, C901
                 except Exception:  # noqa: BLE001
                     rbody = b'<<undecodable gzip>>'
             tr['canary_in_response'] = tr['canary_in_response'] or cfg['canary_content'].encode() in rbody
+            if W.current_marker and W.current_marker.encode() in rbody:
+                tr['entity_in_response'] = True
             bc, ok = body_class(status, hdrs, rbody)
             tr.update(status=status, body_class=bc, wellformed=ok, content_type=hdrs.get('content-type'))
+            tr['header_injected'] = 'x-injected' in hdrs
         if before is not None:
             diff = [k for k in before if before[k] != after[k]]
             tr['state_changed'] = diff
@@ -607,6 +666,7 @@ def build_world(cfg):  # noqa: PLR0915, C901
                     a, b = set(before[k]), set(after[k])
                     tr.setdefault('diff_detail', {})[k] = [str(x)[:300] for x in list(a - b)[:2] + list(b - a)[:2]]
         suspicious = (tr['escaped'] or tr['spin'] or p is None or tr['resolved'] or tr['canary_in_response'] or
+                      tr.get('header_injected') or tr.get('entity_in_response') or tr.get('entity_in_notification') or (own or {}).get('entity_handed') or
                       not tr.get('wellformed', True) or (own is not None and not own.get('returned')) or
                       (tr.get('status') == 500 and tr.get('body_class') == 'empty') or
                       (tr.get('state_changed') and (tr.get('status') is None or tr['status'] >= 400)))
@@ -615,6 +675,81 @@ def build_world(cfg):  # noqa: PLR0915, C901
         if srv.role == 'consumer' and body is not None and len(W.notifications) < 60:
             W.notifications.append((netloc, path, body))
         return p
+
+    # ------------------------------------------------------------ several requests on ONE kept-alive connection
+    def deliver_seq(netloc, items, label='sequence'):
+        """items: [{'kind', 'raw' (bytes of the complete request), 'message_id', 'valid'}]"""
+        srv = W.servers[netloc]
+        raw = b''.join(it['raw'] for it in items)
+        # what the model of the connection loop needs: per request the framing classes, path class, component outcome
+        model_items, wires = [], b''
+        for it in items:
+            head, _, wire = it['raw'].partition(b'\r\n\r\n')
+            lines = head.split(b'\r\n')
+            method, path = lines[0].split(b' ')[0].decode(), lines[0].split(b' ')[1].decode('latin-1')
+            hd = {}
+            for ln in lines[1:]:
+                k, _, v = ln.partition(b':')
+                hd[k.strip().lower().decode()] = v.strip().decode('latin-1')
+            if method not in ('POST', 'GET') or it['kind'] == 'bad_header':
+                break
+            cl = hd.get('content-length')
+            clc = [0, 0] if not cl else [1, int(cl)] if cl.isdigit() else [2, 0] if re.fullmatch(r'-\d+', cl) else [3, 0]
+            els = urlparse(path).path.split('/')
+            first = els[0] if els[0] else (els[1] if len(els) > 1 else '')
+            comp = [1, 500, 1] if it['kind'] == 'bad_xml' else [1, 200, 0]
+            model_items.append([method == 'POST', [hd.get('transfer-encoding', '').lower() == 'chunked'] + clc, hd.get('content-encoding'),
+                                [True, 0 if first in srv.dispatcher._instances else 1], comp, True])
+            wires += wire
+        before = snapshot(deep=True)
+        snaps = []
+        ON_ENTER.append(lambda name: snaps.append(snapshot()))
+        mark = len(W.last_frames)
+        res_mark = len(W.resolved)
+        W.depth += 1
+        try:
+            resp, escaped, spin, reads, read_log = serve(raw, srv)
+        finally:
+            W.depth -= 1
+            ON_ENTER.pop()
+        entered = list(ENTERED)
+        after_serve = snapshot()
+        W.depth += 1
+        try:
+            drain_sco()
+        finally:
+            W.depth -= 1
+        after = snapshot(deep=True)
+        responses, unparsed = parse_responses(resp)
+        rs = []
+        for status, hdrs, body in responses:
+            if hdrs.get('content-encoding') == 'gzip':
+                try:
+                    body = _gzip.decompress(body)
+                except Exception:  # noqa: BLE001
+                    body = b'<<undecodable gzip>>'
+            bc, ok = body_class(status, hdrs, body) if status is not None else ('no-response', False)
+            rel = re.search(rb'RelatesTo[^>]*>([^<]+)<', body or b'')
+            rs.append({'status': status, 'body_class': bc, 'wellformed': ok, 'relates_to': rel.group(1).decode('latin-1') if rel else None,
+                       'connection': hdrs.get('connection')})
+        snaps2 = snaps + [after_serve]
+        per_req = [[k for k in snaps2[i] if snaps2[i][k] != snaps2[i + 1][k]] for i in range(len(snaps2) - 1)]
+        tr = {'seq': True, 'endpoint': srv.role, 'label': label, 'mutation': 'seq:' + '+'.join(it['kind'] for it in items),
+              'kinds': [it['kind'] for it in items], 'valid': [bool(it.get('valid')) for it in items],
+              'closes': [bool(it.get('closes')) for it in items], 'expect': [it.get('expect') for it in items],
+              'message_ids': [it.get('message_id') for it in items], 'inner_ids': [it.get('inner_id') for it in items], 'n_requests': len(items), 'entered': entered,
+              'responses': rs, 'unparsed_output': unparsed, 'escaped': escaped, 'spin': spin, 'reads': reads,
+              'read_budget': 3 * len(raw) + 64 * (len(items) + 1), 'frames': len(W.last_frames) - mark,
+              'propagated': [f.get('propagated') for f in W.last_frames[mark:] if not f.get('returned')],
+              'per_request_changed': per_req, 'state_changed': [k for k in before if before[k] != after[k]],
+              'resolved': W.resolved[res_mark:], 'canary_in_response': cfg['canary_content'].encode() in resp, 'nested': False,
+              'model_items': model_items if len(wires) <= 6000 else None, 'wires_hex': wires.hex() if len(wires) <= 6000 else None}
+        for r_, (st_, hd_, bd_) in zip(rs, responses):
+            r_['content_type'] = hd_.get('content-type')
+        tr['raw_hex'] = raw.hex()[:60000] if cfg.get('keep_seq_raw', True) else ''
+        W.seq_traces.append(tr)
+        return tr
+    W.seq_traces = []
 
     # ------------------------------------------------------------ loop-back SOAP client
     class LoopClient:
@@ -766,6 +901,7 @@ def build_world(cfg):  # noqa: PLR0915, C901
             instrument(inst)
     W.prov, W.cons, W.psrv, W.csrv = prov, cons, psrv, csrv
     W.deliver, W.snapshot, W.drain = deliver, snapshot, drain_sco
+    W.deliver_seq, W.build_raw = deliver_seq, build_raw
     W.Decimal = Decimal
     W.pm = pm
     W.pm_types = pm_types
@@ -890,6 +1026,15 @@ def xml_mutate(rng, data, op, known_actions):
         if a is None:
             return None
         a.text = rng.choice(known_actions + ['urn:garbage', '', 'http://schemas.xmlsoap.org/ws/2004/08/eventing/Subscribe'])
+    elif op in ('action_nonlatin', 'echo_field_nonlatin'):
+        # request-controlled text that implementations like to echo (status line, fault text, RelatesTo): characters outside
+        # latin-1 and line breaks must neither break the response nor inject headers
+        tag = 'Action' if op == 'action_nonlatin' else rng.choice(['MessageID', 'To', 'Action'])
+        x = root.find(f'{{{S12}}}Header/{{{WSA}}}{tag}')
+        if x is None:
+            return None
+        base = rng.choice(['urn:unknown-action', x.text or 'urn:x'])
+        x.text = base + rng.choice(['-\u20ac', '-\u0416\u4e2d', '\nX-Injected: yes', '\r\nX-Injected: yes\r\n', '-\u20ac\nX-Injected: yes'])
     elif op in ('delete_header', 'delete_body'):
         x = root.find(f'{{{S12}}}' + ('Header' if op == 'delete_header' else 'Body'))
         if x is None:
@@ -936,14 +1081,73 @@ def xml_mutate(rng, data, op, known_actions):
 XML_OPS = ['delete_element', 'duplicate_element', 'rename_element', 'delete_attribute', 'rename_attribute', 'attribute_value',
            'add_attribute', 'text_value', 'insert_child', 'swap_siblings', 'wrong_action', 'delete_header_block', 'empty_body',
            'deep_nesting', 'many_siblings', 'delete_header', 'delete_body', 'delete_action', 'delete_message_id', 'delete_to',
-           'empty_header']
+           'empty_header', 'action_nonlatin', 'action_nonlatin', 'echo_field_nonlatin']
 BYTE_OPS = ['truncate', 'flip_bytes', 'non_utf8', 'empty', 'garbage', 'bom', 'encoding_decl', 'doctype_file', 'doctype_http',
-            'doctype_param', 'entity_in_text', 'billion_laughs', 'dtd_external', 'comment_pi', 'null_bytes', 'xinclude']
+            'doctype_param', 'billion_laughs', 'dtd_external', 'comment_pi', 'null_bytes', 'xinclude']
 PATH_OPS = ['other_service', 'unknown_service', 'unknown_device', 'empty_path', 'root_path', 'deeper', 'double_slash', 'bad_url',
             'no_slash', 'query', 'long_path']
 FRAME_OPS = ['chunk_truncate', 'chunk_bad_size', 'chunk_negative', 'chunk_no_last', 'chunk_huge', 'cl_longer', 'cl_shorter',
              'cl_negative', 'cl_garbage', 'cl_absent', 'ce_unsupported', 'ce_corrupt', 'ce_plain_as_gzip', 'ce_upper',
              'no_host', 'weird_accept', 'method_get', 'method_put', 'http10', 'expect_continue', 'valid_gzip_chunked']
+
+
+def scan_marker(root, marker):
+    """places of a parsed tree (text, tail, attribute values) that contain the marker: what a handler would read"""
+    hits = []
+    if root is None or not marker:
+        return hits
+    try:
+        top = root.getroottree().getroot()
+    except Exception:  # noqa: BLE001
+        top = root
+    for el in top.iter():
+        tag = el.tag if isinstance(el.tag, str) else type(el).__name__
+        for kind, val in (('text', el.text), ('tail', el.tail)):
+            if isinstance(val, str) and marker in val:
+                hits.append(f'{kind} of {tag}')
+        if isinstance(el.tag, str):
+            for k, v in el.attrib.items():
+                if marker in v:
+                    hits.append(f'attribute {k} of {tag}')
+        if len(hits) > 5:
+            break
+    return hits
+
+
+ENTITY_OPS = ['entity_content', 'entity_echo', 'entity_attr', 'entity_param', 'entity_nested', 'entity_attr_nested']
+
+
+def entity_mutate(rng, data, op, marker):
+    """declare an internal entity whose replacement text is the marker and reference it where its expansion would be
+    handed to a handler or echoed in the answer"""
+    decl_end = data.find(b'?>') + 2 if data.startswith(b'<?xml') else 0
+    head, rest = data[:decl_end], data[decl_end:]
+    m = marker.encode()
+    if op in ('entity_nested', 'entity_attr_nested'):
+        dtd = (b'<!DOCTYPE foo [<!ENTITY a "' + m + b'"><!ENTITY b "&a;-&a;-&a;"><!ENTITY e "&b;+&b;+&b;">]>')
+    elif op == 'entity_param':
+        dtd = b'<!DOCTYPE foo [<!ENTITY % pe "<!ENTITY e \'' + m + b'\'>"> %pe;]>'
+    else:
+        dtd = b'<!DOCTYPE foo [<!ENTITY e "' + m + b'">]>'
+    if op in ('entity_attr', 'entity_attr_nested'):
+        attrs = [a for a in re.finditer(rb' ([A-Za-z0-9_]+:)?([A-Za-z0-9_]+)="([^"<&]*)"', rest) if not a.group(0).startswith(b' xmlns')]
+        if attrs and rng.random() < 0.7:
+            a = rng.choice(attrs)
+            rest = rest[:a.start(3)] + rng.choice([b'&e;', a.group(3) + b'&e;']) + rest[a.end(3):]
+        else:       # no attribute there: add one to the payload element (or the Body)
+            b = re.search(rb'<[A-Za-z0-9]+:Body[^>]*>\s*<[A-Za-z0-9:]+', rest) or re.search(rb'<[A-Za-z0-9]+:Body', rest)
+            if b is None:
+                return None
+            rest = rest[:b.end()] + b' ExtAttr="&e;"' + rest[b.end():]
+    elif op == 'entity_echo':
+        tag = rng.choice([b'MessageID', b'Action', b'To', b'Address'])
+        t = re.search(rb'<[A-Za-z0-9]+:' + tag + rb'[^>]*>([^<]*)<', rest)
+        if t is None:
+            return None
+        rest = rest[:t.start(1)] + rng.choice([b'&e;', b'urn:uuid:&e;', t.group(1) + b'&e;']) + rest[t.end(1):]
+    else:
+        rest = inject_ref(rng, rest, b'&e;')
+    return head + dtd + rest
 
 
 def byte_mutate(rng, data, op, cfg):
@@ -1004,6 +1208,106 @@ def inject_ref(rng, rest, ref):
     return rest[:p] + ref + rest[p:]
 
 
+def direct_reads(W, body, marker):
+    """the same bytes handed to MessageReader.read_received_message of the provider and of the consumer (the reader of
+    requests, notifications, responses and WS-Discovery datagrams), with and without schema validation"""
+    res = []
+    for who, reader in (('provider', W.prov.msg_reader), ('consumer', W.cons.msg_reader)):
+        for validate in (True, False):
+            try:
+                r = reader.read_received_message(body, validate=validate)
+                hits = scan_marker(getattr(r.p_msg, '_doc_root', None), marker)
+                hib = r.p_msg.header_info_block
+                hits += [f'header_info_block.{n}' for n in ('MessageID', 'Action', 'To') if isinstance(getattr(hib, n, None), str)
+                         and marker in getattr(hib, n)]
+                res.append({'reader': who, 'validate': validate, 'outcome': 'returned', 'handed': hits[:4]})
+            except Exception as exc:  # noqa: BLE001
+                res.append({'reader': who, 'validate': validate, 'outcome': 'raised ' + type(exc).__name__, 'handed': []})
+    return res
+
+
+def run_wsd(W, rng, n):
+    """WS-Discovery datagrams (Hello / Bye / Probe) with entity declarations through NetworkingThread._run_q_read"""
+    if not n:
+        return []
+    import collections
+    import queue
+
+    from sdc11073.wsdiscovery import networkingthread as nt
+    from sdc11073.wsdiscovery import wsdimpl
+    from sdc11073.xml_types import wsd_types
+    from sdc11073.xml_types.addressing_types import HeaderInformationBlock
+
+    class StubWsd:
+        def __init__(self):
+            self.got = []
+
+        def handle_received_message(self, received_message, addr):
+            self.got.append(received_message)
+
+    class OneShot:
+        def __init__(self, t, items):
+            self.t, self.items = t, collections.deque(items)
+
+        def get(self, timeout=None):
+            if not self.items:
+                self.t._quit_recv_event.set()
+                raise queue.Empty
+            return self.items.popleft()
+
+    def mk(kind, k):
+        if kind == 'bye':
+            pl = wsd_types.ByeType()
+            pl.EndpointReference.Address = f'urn:uuid:00000000-0000-0000-0000-{k:012d}'
+        elif kind == 'hello':
+            pl = wsd_types.HelloType()
+            pl.EndpointReference.Address = f'urn:uuid:00000000-0000-0000-0000-{k:012d}'
+            pl.XAddrs = [f'http://127.0.0.1:{9000 + k}/x']
+        else:
+            pl = wsd_types.ProbeType()
+        inf = HeaderInformationBlock(action=pl.action, addr_to=wsdimpl.ADDRESS_ALL, message_id=f'urn:uuid:10000000-0000-0000-0000-{k:012d}')
+        return wsdimpl._mk_wsd_soap_message(inf, pl).serialize()
+
+    out_traces = []
+    for k in range(n):
+        kind = rng.choice(['bye', 'hello', 'probe'])
+        try:
+            data = mk(kind, k)
+        except Exception as exc:  # noqa: BLE001
+            out_traces.append({'kind': kind, 'error': f'{type(exc).__name__}: {exc}'[:160]})
+            continue
+        marker = f'ENT{rng.getrandbits(48):012x}Z'
+        op = rng.choice(ENTITY_OPS + ['none'])
+        body = data if op == 'none' else entity_mutate(rng, data, op, marker)
+        if body is None:
+            op, body = 'none', data
+        t = object.__new__(nt.NetworkingThread)
+        t._quit_recv_event = threading.Event()
+        t._logger = logging.getLogger('c13.wsd')
+        t._known_message_ids = collections.deque(maxlen=50)
+        t._wsd = StubWsd()
+        t._read_queue = OneShot(t, [(('10.0.0.9', 3702), body)])
+        mark = len(W.resolved)
+        tr = {'kind': kind, 'op': op, 'marker': marker, 'escaped': None}
+        try:
+            t._run_q_read()
+        except BaseException as exc:  # noqa: BLE001
+            tr['escaped'] = f'{type(exc).__name__}: {exc}'[:160]
+        tr['handled'] = len(t._wsd.got)
+        hits = []
+        for m in t._wsd.got:
+            hits += scan_marker(getattr(m.p_msg, '_doc_root', None), marker)
+            hib = m.p_msg.header_info_block
+            hits += [f'header_info_block.{x}' for x in ('MessageID', 'Action', 'To') if isinstance(getattr(hib, x, None), str)
+                     and marker in getattr(hib, x)]
+        hits += [f'known_message_ids: {x[:60]}' for x in t._known_message_ids if isinstance(x, str) and marker in x]
+        tr['handed'] = hits[:4]
+        tr['resolved'] = W.resolved[mark:]
+        tr['datagram_hex'] = body.hex()[:6000] if hits or tr['escaped'] or tr['resolved'] else ''
+        out_traces.append(tr)
+    return out_traces
+
+
 def run_world(cfg):  # noqa: PLR0915, C901, PLR0912
     open(cfg['canary_file'], 'w').write(cfg['canary_content'])
     W = build_world(cfg)
@@ -1045,9 +1349,19 @@ def run_world(cfg):  # noqa: PLR0915, C901, PLR0912
         m = re.search(rb'Action[^>]*>([^<]+)<', data)
         if m and m.group(1).decode() not in known_actions:
             known_actions.append(m.group(1).decode())
-        family = rng.choices(['xml', 'bytes', 'path', 'frame'], [0.45, 0.25, 0.1, 0.2])[0]
+        family = rng.choices(['xml', 'bytes', 'path', 'frame', 'entity'], [0.4, 0.22, 0.1, 0.18, 0.1])[0]
         method, headers, framing, body = 'POST', list(default_headers), {}, data
-        if family == 'xml':
+        marker = None
+        if family == 'entity':
+            marker = f'ENT{rng.getrandbits(48):012x}Z'
+            for _try in range(4):
+                op = rng.choice(ENTITY_OPS)
+                body = entity_mutate(rng, data, op, marker)
+                if body is not None:
+                    break
+            else:
+                op, body, marker = 'entity-not-applicable', data, None
+        elif family == 'xml':
             for _try in range(6):
                 op = rng.choice(XML_OPS)
                 body = xml_mutate(rng, data, op, known_actions)
@@ -1109,20 +1423,32 @@ def run_world(cfg):  # noqa: PLR0915, C901, PLR0912
             elif op == 'valid_gzip_chunked':
                 framing = {'coding': 'gzip', 'chunk': 64}
         W.label, W.mutation = name, f'{family}:{op}'
+        W.current_marker = marker
         try:
             W.deliver(netloc, method, path, headers, body, framing, label=name, mutation=f'{family}:{op}')
+            if marker:
+                W.traces[-1]['direct_reads'] = direct_reads(W, body, marker)
         except Exception as exc:  # noqa: BLE001   the harness itself
             errors.append(f'deliver {name} {family}:{op}: {type(exc).__name__}: {exc}'[:160])
+        finally:
+            W.current_marker = None
 
     # consumer endpoint: notifications the provider has sent, replayed mutated
     # (totality only; the consumer keeps no MDIB in this world)
     W.deep_now = False
     for _ in range(cfg.get('n_consumer', 0) if W.notifications else 0):
         netloc, path, data = rng.choice(W.notifications)
-        family = rng.choices(['xml', 'bytes', 'path', 'frame', 'none'], [0.4, 0.3, 0.1, 0.15, 0.05])[0]
+        family = rng.choices(['xml', 'bytes', 'path', 'frame', 'none', 'entity'], [0.35, 0.25, 0.1, 0.1, 0.05, 0.15])[0]
         headers = [('Host', netloc), ('Accept-Encoding', 'gzip'), ('Content-Type', 'application/soap+xml; charset=utf-8')]
         framing, body, op = {}, data, 'none'
-        if family == 'xml':
+        marker = None
+        if family == 'entity':
+            marker = f'ENT{rng.getrandbits(48):012x}Z'
+            op = rng.choice(ENTITY_OPS)
+            body = entity_mutate(rng, data, op, marker)
+            if body is None:
+                op, body, marker = 'entity-not-applicable', data, None
+        elif family == 'xml':
             op = rng.choice(XML_OPS)
             body = xml_mutate(rng, data, op, known_actions) or data
         elif family == 'bytes':
@@ -1136,10 +1462,99 @@ def run_world(cfg):  # noqa: PLR0915, C901, PLR0912
             framing = {'chunk_truncate': {'chunk': 7, 'wire': 'truncate'}, 'chunk_negative': {'chunk': 7, 'wire': 'negative'},
                        'ce_unsupported': {'coding': 'none', 'coding_header': 'br'}, 'cl_garbage': {'cl': 'abc'},
                        'valid_chunked': {'chunk': 100}}[op]
+        W.current_marker = marker
         try:
             W.deliver(netloc, 'POST', path, headers, body, framing, label='notification', mutation=f'{family}:{op}')
+            if marker:
+                W.traces[-1]['direct_reads'] = direct_reads(W, body, marker)
         except Exception as exc:  # noqa: BLE001
             errors.append(f'deliver notification {family}:{op}: {type(exc).__name__}: {exc}'[:160])
+        finally:
+            W.current_marker = None
+    wsd_traces = run_wsd(W, rng, cfg.get('n_wsd', 0))
+
+    # ------------------------------------------------------------ keep-alive: several requests on one connection
+    def capture(name):
+        W.capture = True
+        try:
+            makers[name]()
+        except Captured as cap:
+            return cap.netloc, cap.path, cap.data
+        except Exception:  # noqa: BLE001
+            return None
+        finally:
+            W.capture = False
+        return None
+
+    seq_valid_types = ['GetMdib', 'GetMdState', 'GetContextStates', 'Probe', 'TransferGet', 'GetMetadata', 'SetString', 'SetValue',
+                       'Subscribe', 'GetMdDescription']
+    seq_kinds = ['valid', 'valid', 'valid', 'unknown_path', 'unknown_path', 'smuggle_post', 'smuggle_post', 'smuggle_get', 'bad_method',
+                 'bad_header', 'bad_xml', 'framing_error', 'unsupported_ce', 'oversized_unknown', 'get', 'get_unknown']
+
+    def mid(data):
+        m = re.search(rb'MessageID[^>]*>([^<]+)<', data)
+        return m.group(1).decode('latin-1') if m else None
+
+    def seq_item(kind):
+        cap = capture(rng.choice(seq_valid_types if kind != 'smuggle_post' and kind != 'smuggle_get' else ['Subscribe', 'SetString', 'Subscribe']))
+        if cap is None:
+            return None
+        netloc, path, data = cap
+        H = list(default_headers)
+        vf = W.framing_for_valid()
+        unknown = '/deadbeef' + path[len(dev):]
+        if kind == 'valid':
+            return {'kind': kind, 'raw': W.build_raw('POST', path, H, data, vf), 'message_id': mid(data), 'valid': True, 'expect': 200}
+        if kind == 'unknown_path':
+            return {'kind': kind, 'raw': W.build_raw('POST', unknown, H, data, vf), 'expect': 404}
+        if kind == 'smuggle_post':      # the body of the rejected request is itself a complete request
+            inner = W.build_raw('POST', path, H, data, {})
+            return {'kind': kind, 'raw': W.build_raw('POST', unknown, H, inner, rng.choice([{}, {}, {'chunk': 4096}])), 'expect': 404,
+                    'inner_id': mid(data)}
+        if kind == 'smuggle_get':
+            inner = W.build_raw('POST', path, H, data, {})
+            return {'kind': kind, 'raw': W.build_raw('GET', rng.choice([dev + '/Get/?wsdl', '/deadbeef/x']), H, inner, {}),
+                    'closes': 'may', 'expect': None, 'inner_id': mid(data)}
+        if kind == 'bad_method':
+            return {'kind': kind, 'raw': W.build_raw(rng.choice(['PUT', 'DELETE', 'PATCH']), path, H, data, {}), 'closes': True, 'expect': 501}
+        if kind == 'bad_header':
+            extra = [('X-Long', 'a' * 70000)] if rng.random() < 0.5 else [(f'X-{i}', '1') for i in range(150)]
+            return {'kind': kind, 'raw': W.build_raw('POST', path, H + extra, data, {}), 'closes': True, 'expect': 431}
+        if kind == 'bad_xml':
+            return {'kind': kind, 'raw': W.build_raw('POST', path, H, byte_mutate(rng, data, 'truncate', cfg), vf), 'expect': 500}
+        if kind == 'framing_error':
+            return {'kind': kind, 'raw': W.build_raw('POST', path, H, data, {'chunk': 64, 'wire': rng.choice(['bad_size', 'negative'])}),
+                    'closes': True, 'expect': 400}
+        if kind == 'unsupported_ce':
+            return {'kind': kind, 'raw': W.build_raw('POST', path, H, data, {'coding': 'none', 'coding_header': 'br'}), 'closes': True, 'expect': 400}
+        if kind == 'oversized_unknown':
+            big = data + b'<!--' + b'x' * rng.choice([70000, 300000]) + b'-->'
+            return {'kind': kind, 'raw': W.build_raw('POST', unknown, H, big, rng.choice([{}, {'chunk': 512}, {'coding': 'gzip'}])), 'expect': 404}
+        if kind == 'get':
+            return {'kind': kind, 'raw': W.build_raw('GET', dev + '/Get/?wsdl', H, None, {}), 'expect': 200}
+        if kind == 'get_unknown':
+            return {'kind': kind, 'raw': W.build_raw('GET', '/deadbeef/x', H, None, {}), 'expect': 404}
+        raise ValueError(kind)
+
+    for _ in range(cfg.get('n_seq', 0)):
+        items = []
+        closing = {'bad_method', 'bad_header', 'framing_error', 'unsupported_ce'}
+        for _k in range(rng.randint(2, 5)):
+            kind = rng.choice(seq_kinds)
+            if kind in closing and (not items or rng.random() < 0.6 or any(i['kind'] in closing for i in items)):
+                kind = rng.choice(['unknown_path', 'smuggle_post', 'valid', 'bad_xml'])   # the connection ends behind a closing kind
+            it = seq_item(kind)
+            if it is not None:
+                items.append(it)
+        last = seq_item('valid')            # a rejected request is followed by a valid one
+        if last is not None:
+            items.append(last)
+        if len(items) < 2:
+            continue
+        try:
+            W.deliver_seq(provider_netloc, items)
+        except Exception as exc:  # noqa: BLE001
+            errors.append(f'deliver_seq: {type(exc).__name__}: {exc}'[:200])
     final_mdib = None
     W.capture, W.label, W.mutation, W.deep_now = False, 'final-GetMdib', 'none', True
     try:
@@ -1153,7 +1568,7 @@ def run_world(cfg):  # noqa: PLR0915, C901, PLR0912
         os.unlink(cfg['canary_file'])
     except OSError:
         pass
-    return {'traces': W.traces, 'n_setup': n_setup, 'errors': errors[:30], 'n_errors': len(errors),
+    return {'traces': W.traces, 'wsd': wsd_traces, 'seq': W.seq_traces, 'n_setup': n_setup, 'errors': errors[:30], 'n_errors': len(errors),
             'canary_in_mdib': canary_in_mdib, 'parser_kwargs': [k for k in {json.dumps(k, sort_keys=True) for k in W.parser_kwargs}],
             'resolved_total': W.resolved[:20], 'stopped_threads': W.stopped_threads,
             'threads': sorted({t.name for t in threading.enumerate()})}
